@@ -258,6 +258,31 @@ func c03Generated(e *env, base string) error {
 		}
 		e.rep.Note("exhaustive: all %d ordered pairs of %d small types (constructor depth <= %d)", total, len(small), depth)
 	}
+	// the field-selection family of C05 (map / autoMap / matchIgnoreCase / ignoreMissing / ignore interplay, with the
+	// pinned ambiguous-candidates instances), generation outcome only
+	{
+		nf := 48
+		if e.thorough {
+			nf = 480
+		}
+		var fs []*famOut
+		rf := r.Fork(777)
+		for i := 0; i < nf; i++ {
+			fs = append(fs, famFields(rf, i))
+		}
+		m := merge(fs...)
+		var convs strings.Builder
+		for _, n := range m.Order {
+			convs.WriteString(m.Convs[n])
+		}
+		root := filepath.Join(base, fmt.Sprintf("gen%d", len(batches)))
+		tree := scratch.Tree{"go.mod": fmt.Sprintf("module example.org/c03g%d\n\ngo 1.18\n", len(batches)),
+			"p/types.go": "package p\n\n" + m.Types, "p/conv.go": "package p\n\n" + convs.String()}
+		if err := scratch.Write(root, tree); err != nil {
+			return err
+		}
+		batches = append(batches, batch{root, m.Convs, "fields"})
+	}
 	var mu sync.Mutex
 	var cases []*k1Case
 	var wg sync.WaitGroup
